@@ -132,6 +132,22 @@ impl DeCase {
 
 /// The damaged record delivered to the deserializer.
 pub fn derive_stream(c: &DeCase) -> Vec<Entry> {
+    derive_stream_counted(c).0
+}
+
+/// The damaged record, and for each storage fault whether it actually changed the record.
+pub fn derive_stream_counted(c: &DeCase) -> (Vec<Entry>, Vec<bool>) {
+    let mut effective = Vec::with_capacity(c.faults.len());
+    let mut prev = derive_stream_prefix(c, 0);
+    for n in 1..=c.faults.len() {
+        let cur = derive_stream_prefix(c, n);
+        effective.push(cur != prev);
+        prev = cur;
+    }
+    (prev, effective)
+}
+
+fn derive_stream_prefix(c: &DeCase, nfaults: usize) -> Vec<Entry> {
     let kind_at = |i: usize| if c.kinds.is_empty() { KeyKind::Str } else { c.kinds[i % c.kinds.len()] };
     let mut es = vec![
         Entry { key: "hi".into(), kind: KeyKind::Str, val: Some(Slot::F64(c.hi)) },
@@ -145,7 +161,7 @@ pub fn derive_stream(c: &DeCase) -> Vec<Entry> {
     fn find(es: &[Entry], name: &str) -> Option<usize> {
         es.iter().position(|e| e.key == name)
     }
-    for f in &c.faults {
+    for f in c.faults.iter().take(nfaults) {
         match f {
             StorageFault::Truncate { tokens } => {
                 let full = tokens / 2;
@@ -233,7 +249,6 @@ pub enum Reason {
     Unknown,
     Overlap,
     NonFinite,
-    Trailing,
 }
 
 #[derive(Clone, Debug, PartialEq)]
@@ -279,12 +294,16 @@ fn name_index(k: &str) -> Option<u8> {
 }
 
 /// Sequential specification of struct decoding. No serde, no code under test.
-pub fn model(all_entries: &[Entry], d: &Delivery) -> Expect {
+pub fn model(all_entries: &[Entry], d: &Delivery, hint_given: bool) -> Expect {
     let (mode, strict_end, fault) = (d.mode, d.strict_end, d.fault);
-    // a hint-driven format shows the visitor only the struct's own fields; the
-    // struct's fields are (hi, lo) by the property, whatever the code declares
+    let _ = strict_end;
+    // a hint-driven format shows the visitor only the struct's own fields — if the
+    // visitor's owner asked for a struct and so gave a hint at all (with
+    // `deserialize_any` / `deserialize_map` there is none and the format shows
+    // everything); the struct's fields are (hi, lo) by the property, whatever
+    // names the code declares
     let filtered: Vec<Entry>;
-    let entries: &[Entry] = if d.honour_fields && mode == Mode::Map {
+    let entries: &[Entry] = if d.honour_fields && hint_given && mode == Mode::Map {
         filtered = all_entries.iter().filter(|e| name_index(&e.key).is_some()).cloned().collect();
         &filtered
     } else {
@@ -318,11 +337,10 @@ pub fn model(all_entries: &[Entry], d: &Delivery) -> Expect {
             }
             let leftover = entries.get(pos).map(|e| e.val.is_some()).unwrap_or(false);
             if leftover {
-                if strict_end {
-                    // the format itself refuses trailing data, whatever the visitor did
-                    return Expect::Err(Reason::Trailing);
-                }
-                soft = soft.or(Some("trailing elements in a lax format"));
+                // The property does not mention sequences that are too long. A strict
+                // format refuses what the visitor leaves behind, but a visitor may also
+                // drain the extra elements itself and accept, or reject them itself.
+                soft = soft.or(Some("sequence longer than two elements"));
             }
         }
         Mode::Map => {
@@ -418,6 +436,211 @@ pub struct RefStrict {
     pub lo: StrictF64,
 }
 
+/// A word read as liberally as a conforming implementation conceivably could:
+/// any numeric type (cast), or a string that parses as f64.
+#[derive(Debug, Clone, Copy)]
+pub struct LenientF64(pub f64);
+
+impl<'de> Deserialize<'de> for LenientF64 {
+    fn deserialize<D: serde::Deserializer<'de>>(d: D) -> Result<Self, D::Error> {
+        struct V;
+        impl serde::de::Visitor<'_> for V {
+            type Value = LenientF64;
+            fn expecting(&self, f: &mut std::fmt::Formatter) -> std::fmt::Result {
+                f.write_str("a number or a numeric string")
+            }
+            fn visit_f64<E: serde::de::Error>(self, v: f64) -> Result<LenientF64, E> {
+                Ok(LenientF64(v))
+            }
+            fn visit_f32<E: serde::de::Error>(self, v: f32) -> Result<LenientF64, E> {
+                Ok(LenientF64(v as f64))
+            }
+            fn visit_i64<E: serde::de::Error>(self, v: i64) -> Result<LenientF64, E> {
+                Ok(LenientF64(v as f64))
+            }
+            fn visit_u64<E: serde::de::Error>(self, v: u64) -> Result<LenientF64, E> {
+                Ok(LenientF64(v as f64))
+            }
+            fn visit_str<E: serde::de::Error>(self, v: &str) -> Result<LenientF64, E> {
+                v.trim().parse::<f64>().map(LenientF64).map_err(|_| E::custom("not a numeric string"))
+            }
+        }
+        d.deserialize_any(V)
+    }
+}
+
+/// The most liberal conforming reader: like `Ref` for maps (unknown,
+/// duplicate and missing fields are errors) but words are read leniently, a
+/// sequence may carry extra elements (they are drained), and the container is
+/// requested with `deserialize_any` instead of `deserialize_struct` (no
+/// `fields` hint, so a hint-driven host shows it every entry).
+#[derive(Debug)]
+pub struct RefLenient {
+    pub hi: f64,
+    pub lo: f64,
+}
+
+struct RefLenientVisitor;
+
+impl<'de> serde::de::Visitor<'de> for RefLenientVisitor {
+    type Value = RefLenient;
+    fn expecting(&self, f: &mut std::fmt::Formatter) -> std::fmt::Result {
+        f.write_str("a (hi, lo) record")
+    }
+    fn visit_seq<A: serde::de::SeqAccess<'de>>(self, mut seq: A) -> Result<RefLenient, A::Error> {
+        use serde::de::Error;
+        let hi: LenientF64 = seq.next_element()?.ok_or_else(|| A::Error::invalid_length(0, &self))?;
+        let lo: LenientF64 = seq.next_element()?.ok_or_else(|| A::Error::invalid_length(1, &self))?;
+        while seq.next_element::<serde::de::IgnoredAny>()?.is_some() {}
+        Ok(RefLenient { hi: hi.0, lo: lo.0 })
+    }
+    fn visit_map<A: serde::de::MapAccess<'de>>(self, mut map: A) -> Result<RefLenient, A::Error> {
+        use serde::de::Error;
+        let (mut hi, mut lo) = (None, None);
+        while let Some(k) = map.next_key::<String>()? {
+            match k.as_str() {
+                "hi" => {
+                    if hi.is_some() {
+                        return Err(A::Error::duplicate_field("hi"));
+                    }
+                    hi = Some(map.next_value::<LenientF64>()?.0);
+                }
+                "lo" => {
+                    if lo.is_some() {
+                        return Err(A::Error::duplicate_field("lo"));
+                    }
+                    lo = Some(map.next_value::<LenientF64>()?.0);
+                }
+                _ => return Err(A::Error::unknown_field("other", &["hi", "lo"])),
+            }
+        }
+        Ok(RefLenient { hi: hi.ok_or_else(|| A::Error::missing_field("hi"))?, lo: lo.ok_or_else(|| A::Error::missing_field("lo"))? })
+    }
+}
+
+impl<'de> Deserialize<'de> for RefLenient {
+    fn deserialize<D: serde::Deserializer<'de>>(d: D) -> Result<Self, D::Error> {
+        d.deserialize_any(RefLenientVisitor)
+    }
+}
+
+/// Like `Ref` (derive-shaped, `deserialize_struct` with the right field names)
+/// but it keeps reading unknown keys' values instead of stopping at the key —
+/// no: identical to `Ref` except that it asks for the container through
+/// `deserialize_map`, i.e. without the `fields` hint.
+#[derive(Debug)]
+pub struct RefNoHint {
+    pub hi: f64,
+    pub lo: f64,
+}
+
+impl<'de> Deserialize<'de> for RefNoHint {
+    fn deserialize<D: serde::Deserializer<'de>>(d: D) -> Result<Self, D::Error> {
+        struct V;
+        impl<'de> serde::de::Visitor<'de> for V {
+            type Value = RefNoHint;
+            fn expecting(&self, f: &mut std::fmt::Formatter) -> std::fmt::Result {
+                f.write_str("a (hi, lo) record")
+            }
+            fn visit_seq<A: serde::de::SeqAccess<'de>>(self, mut seq: A) -> Result<RefNoHint, A::Error> {
+                use serde::de::Error;
+                let hi: f64 = seq.next_element()?.ok_or_else(|| A::Error::invalid_length(0, &self))?;
+                let lo: f64 = seq.next_element()?.ok_or_else(|| A::Error::invalid_length(1, &self))?;
+                Ok(RefNoHint { hi, lo })
+            }
+            fn visit_map<A: serde::de::MapAccess<'de>>(self, mut map: A) -> Result<RefNoHint, A::Error> {
+                use serde::de::Error;
+                let (mut hi, mut lo) = (None, None);
+                while let Some(k) = map.next_key::<String>()? {
+                    match k.as_str() {
+                        "hi" => {
+                            if hi.is_some() {
+                                return Err(A::Error::duplicate_field("hi"));
+                            }
+                            hi = Some(map.next_value::<f64>()?);
+                        }
+                        "lo" => {
+                            if lo.is_some() {
+                                return Err(A::Error::duplicate_field("lo"));
+                            }
+                            lo = Some(map.next_value::<f64>()?);
+                        }
+                        _ => return Err(A::Error::unknown_field("other", &["hi", "lo"])),
+                    }
+                }
+                Ok(RefNoHint { hi: hi.ok_or_else(|| A::Error::missing_field("hi"))?, lo: lo.ok_or_else(|| A::Error::missing_field("lo"))? })
+            }
+        }
+        d.deserialize_any(V)
+    }
+}
+
+/// Anything with two words (for the oracle family in the real-format legs).
+pub trait Words {
+    fn words(&self) -> (u64, u64);
+}
+impl Words for Ref {
+    fn words(&self) -> (u64, u64) {
+        (self.hi.to_bits(), self.lo.to_bits())
+    }
+}
+impl Words for RefStrict {
+    fn words(&self) -> (u64, u64) {
+        (self.hi.0.to_bits(), self.lo.0.to_bits())
+    }
+}
+impl Words for RefLenient {
+    fn words(&self) -> (u64, u64) {
+        (self.hi.to_bits(), self.lo.to_bits())
+    }
+}
+impl Words for RefNoHint {
+    fn words(&self) -> (u64, u64) {
+        (self.hi.to_bits(), self.lo.to_bits())
+    }
+}
+
+/// Combine the verdicts of the oracle family. A record's outcome is
+/// determinate only when every conforming way of reading it agrees.
+#[derive(Debug, Clone, PartialEq)]
+pub enum FamilyVerdict {
+    /// all readers accept the same, valid words
+    Accept(Vec<(u64, u64)>),
+    /// all readers reject, or all accept the same words and at least one pair is invalid
+    Reject(String),
+    /// conforming readers disagree: the property does not fix the outcome
+    Unspecified(String),
+}
+
+pub fn family_verdict(standard: &Result<Vec<(u64, u64)>, String>, others: &[(&'static str, Result<Vec<(u64, u64)>, String>)]) -> FamilyVerdict {
+    let validity = |ws: &Vec<(u64, u64)>| -> Result<(), String> {
+        match ws.iter().find(|(h, l)| !ref_valid_bits(*h, *l)) {
+            None => Ok(()),
+            Some((h, l)) => Err(if f64::from_bits(*h).is_finite() && f64::from_bits(*l).is_finite() { "overlap".into() } else { "non-finite".into() }),
+        }
+    };
+    // effective verdict of each reader: Ok(words) only if it parsed AND the words are all valid
+    let eff = |r: &Result<Vec<(u64, u64)>, String>| -> Result<Vec<(u64, u64)>, String> {
+        match r {
+            Ok(ws) => validity(ws).map(|_| ws.clone()),
+            Err(e) => Err(e.clone()),
+        }
+    };
+    let s = eff(standard);
+    for (name, o) in others {
+        let e = eff(o);
+        match (&s, &e) {
+            (Ok(a), Ok(b)) if a == b => {}
+            (Err(_), Err(_)) => {}
+            _ => return FamilyVerdict::Unspecified(format!("the {name} reader disagrees with the standard one")),
+        }
+    }
+    match s {
+        Ok(ws) => FamilyVerdict::Accept(ws),
+        Err(e) => FamilyVerdict::Reject(e),
+    }
+}
+
 pub fn derive_model(entries: &[Entry], d: &Delivery) -> Result<(u64, u64), ()> {
     let mut run = d.run(entries);
     match Ref::deserialize(&mut run) {
@@ -475,9 +698,13 @@ fn reject_probe(kind: &ErrKind, mode: Mode) -> &'static str {
 
 pub fn execute(c: &DeCase) -> LegReport {
     let mut rep = LegReport::default();
-    let entries = derive_stream(c);
-    for f in &c.faults {
-        rep.faults_fired.hit(f.label());
+    let (entries, effective) = derive_stream_counted(c);
+    for (f, eff) in c.faults.iter().zip(&effective) {
+        if *eff {
+            rep.faults_fired.hit(f.label());
+        } else {
+            rep.probes.hit("storage_fault_planned_without_effect");
+        }
     }
     rep.faulted = !c.faults.is_empty() || c.access_fault.is_some();
     rep.probes.hit(match c.mode {
@@ -514,9 +741,9 @@ pub fn execute(c: &DeCase) -> LegReport {
         rep.probes.hit("de_format_honours_fields_hint");
     }
     rep.probes.hit(if c.human_readable { "de_format_human_readable" } else { "de_format_binary" });
-    let expect = model(&entries, &dl);
-
-    // model cross-check: hand model vs serde derive, where both are defined
+    // model cross-check: hand model vs serde derive (which asks for a struct and so
+    // gives the `fields` hint), where both are defined
+    let expect = model(&entries, &dl, true);
     if !matches!(expect, Expect::Unspecified(_)) {
         let d = guarded(|| derive_model(&entries, &dl));
         let agree = match (&expect, &d) {
@@ -542,6 +769,9 @@ pub fn execute(c: &DeCase) -> LegReport {
         }
         Ok(o) => o,
     };
+    // what the code under test is held to: the same model, under the environment it
+    // actually created (did it give the format a `fields` hint or not?)
+    let expect = if out.fields_seen.is_some() { expect } else { model(&entries, &dl, false) };
     rep.steps = out.calls as u64;
     rep.log.u64(out.log);
     rep.sig.u64(out.sig);
@@ -621,7 +851,6 @@ pub fn execute(c: &DeCase) -> LegReport {
                 Reason::Duplicate => "DE_ACCEPTED_DUPLICATE",
                 Reason::Unknown => "DE_ACCEPTED_UNKNOWN",
                 Reason::Overlap | Reason::NonFinite => "DE_ACCEPTED_INVALID",
-                Reason::Trailing => "HARNESS",
             };
             // avoid reporting the same thing twice
             if !rep.violations.iter().any(|v| v.class == class) {
@@ -663,6 +892,39 @@ pub fn execute(c: &DeCase) -> LegReport {
         Err(e) => format!("Err({:?}) expect {:?}", e.kind, expect),
     };
     rep.sig.byte(out.result.is_ok() as u8);
+
+    // the same delivery through `Deserialize::deserialize_in_place` (what derive-generated
+    // code of an enclosing type may call): same verdict, and the place is never left invalid
+    {
+        let mut run = dl.run(&entries);
+        let mut place = raw_twofloat(1.0f64.to_bits(), 0);
+        match guarded(|| TwoFloat::deserialize_in_place(&mut run, &mut place)) {
+            Err(msg) => rep.violations.push(viol("PANIC", format!("deserialize_in_place panicked: {msg}"))),
+            Ok(r) => {
+                let pw = (place.hi().to_bits(), place.lo().to_bits());
+                if !ref_valid_bits(pw.0, pw.1) {
+                    rep.violations.push(viol(
+                        "DE_ACCEPTED_INVALID",
+                        format!("deserialize_in_place left invalid words ({}, {}) in the place", values::hex(pw.0), values::hex(pw.1)),
+                    ));
+                }
+                match (&r, &out.result) {
+                    (Ok(()), Ok(w)) if *w == pw => rep.probes.hit("de_in_place_agrees"),
+                    (Err(_), Err(_)) => rep.probes.hit("de_in_place_agrees"),
+                    _ => rep.violations.push(viol(
+                        "DE_UNFAITHFUL",
+                        format!(
+                            "deserialize_in_place gives {} with place ({}, {}) where deserialize gives {:?}",
+                            if r.is_ok() { "Ok" } else { "Err" },
+                            values::hex(pw.0),
+                            values::hex(pw.1),
+                            out.result.as_ref().map(|(h, l)| (values::hex(*h), values::hex(*l))).map_err(|e| e.msg.clone())
+                        ),
+                    )),
+                }
+            }
+        }
+    }
 
     // recovery (bounded liveness): the intact record, faults off, decodes
     if rep.faulted && ref_valid_bits(c.hi, c.lo) {
